@@ -162,6 +162,29 @@ def main():
         broken.append(f'Print Assumptions lists axioms that are not in the declared trusted base: {unexpected_axioms}')
     if not b['driver_ok']:
         broken.append('extracted model driver does not build (correspondence cannot run)')
+    # -- thorough tier: the independent checker re-checks the compiled property files and everything they depend on
+    chk = None
+    if tier == 'thorough' and pr['ok'] and not os.environ.get('SZV_NO_COQCHK'):
+        mods = ' '.join('SZ.' + f[:-2].replace('/', '.') for f in pr['files'])
+        t1 = time.time()
+        rc, out = sh(f'timeout 2400 coqchk -o -silent -Q . SZ {mods} 2>&1', timeout=2500, cwd=COQ)
+        m = re.search(r'\* Axioms:(.*?)\* Constants/Inductives relying on type-in-type:(.*?)\* Constants/Inductives relying on unsafe \(co\)fixpoints:(.*?)'
+                      r'\* Inductives whose positivity is assumed:(.*)', out, re.S)
+        chk = {'cmd': f'coqchk -o -silent -Q . SZ {mods}', 'rc': rc, 'seconds': round(time.time() - t1, 1)}
+        if rc != 0 or not m:
+            broken.append('coqchk does not accept the compiled property files: ' + out[-300:])
+        else:
+            axs = re.findall(r'^\s+(\S+)\s*$', m.group(1), re.M)
+            axs = [x for x in axs if x != '<none>']
+            # the standard library's own axiomatisation of the kernel's primitive integers / floats (reached through the C05
+            # float model) is named in the trusted base; anything else is not
+            foreign = [x for x in axs if not (x.startswith('Coq.Numbers.Cyclic.Int63.') or x.startswith('Coq.Floats.'))]
+            chk['axioms'] = axs
+            chk['unsafe'] = [g.strip() for g in m.groups()[1:]]
+            if foreign:
+                broken.append(f'coqchk lists axioms outside the declared trusted base: {foreign[:6]}')
+            if any(g.strip() != '<none>' for g in m.groups()[1:]):
+                broken.append('coqchk reports type-in-type / unsafe fixpoints / assumed positivity: ' + repr(chk['unsafe']))
 
     # -- harness
     hres = {'evaluations': 0, 'distinct_nontrivial': 0, 'samples': [], 'violations': [], 'known': [], 'notes': []}
@@ -241,6 +264,7 @@ def main():
             'trusted_base': COMMON_TRUSTED + P.get('trusted', []),
             'theorems': pr['theorems'],
             'print_assumptions': {'closed_under_global_context': pr.get('closed', 0), 'axioms': pr.get('axioms', [])},
+            **({'coqchk': chk} if chk else {}),
             'generated_files_changed_this_run': b['gen_changed'],
             'translation_failures': b['gen_failed'],
             'obligations_broken': broken,
